@@ -8,6 +8,8 @@
 (*                         (the unbuffered send returned)                    *)
 (*   att h ok              the stub getter was asked for height h and the harness let it *)
 (*                         answer ok (real namespace data) / fail (an error) *)
+(*   attnw h               the harness let the stub fail and did not wait for the loop: the return of *)
+(*                         getAll (the model's Attempt step) may happen any time later        *)
 (*   recv h good           the consumer read a response for height h; good = its blobs are *)
 (*                         exactly the blobs of the namespace at h           *)
 (*   closed                the consumer saw the channel closed               *)
@@ -25,13 +27,16 @@ CONSTANT TracePath
 Trace == ndJsonDeserialize(TracePath)
 NT == Len(Trace)
 
-VARIABLE i
-tvars == <<vars, i>>
+VARIABLES
+    i,      \* next line to consume
+    owedA   \* "fail": the harness let a retrieval fail (line "attnw") without waiting for the loop to
+            \* come back, so getAll's return -- the Attempt step -- may happen any time later
+tvars == <<vars, i, owedA>>
 
 Ev == Trace[i]
 Advance == i' = i + 1 /\ TLCSet(1, IF TLCGet(1) > i + 1 THEN TLCGet(1) ELSE i + 1)
 
-TraceInit == Init /\ i = 1 /\ TLCSet(1, 1)
+TraceInit == Init /\ i = 1 /\ owedA = "none" /\ TLCSet(1, 1)
 
 TReset ==
     /\ Ev.ev = "reset"
@@ -40,26 +45,32 @@ TReset ==
     /\ buf' = <<>> /\ delivered' = <<>> /\ sawClose' = FALSE
     /\ user' = FALSE /\ svc' = FALSE /\ cause' = "-" /\ fullAtClose' = FALSE
     /\ hist' = <<>>
+    /\ owedA' = "none"
     /\ Advance
 
-THdr    == Ev.ev = "hdr" /\ next = Ev.h /\ RecvHeader /\ Advance
-TAtt    == Ev.ev = "att" /\ cur = Ev.h /\ Attempt(Ev.ok) /\ Advance
+THdr    == Ev.ev = "hdr" /\ next = Ev.h /\ RecvHeader /\ UNCHANGED owedA /\ Advance
+TAtt    == Ev.ev = "att" /\ owedA = "none" /\ cur = Ev.h /\ Attempt(Ev.ok) /\ UNCHANGED owedA /\ Advance
+\* the answer was handed to the stub; when getAll returns to the loop is not observed
+TAttNW  == /\ Ev.ev = "attnw" /\ owedA = "none" /\ loop = "retrieving" /\ cur = Ev.h
+           /\ owedA' = "fail" /\ UNCHANGED vars /\ Advance
 TRecv   == /\ Ev.ev = "recv" /\ buf # <<>>
            /\ Head(buf).h = Ev.h /\ (Head(buf).b = Ev.h) = Ev.good
-           /\ Consume /\ Advance
-TClosed == Ev.ev = "closed" /\ ConsumerSeesClose /\ Advance
-TCancel == Ev.ev = "cancel" /\ CancelUser /\ Advance
-TStop   == Ev.ev = "stop" /\ StopService /\ Advance
-TFeed   == Ev.ev = "feedclose" /\ CloseFeed /\ Advance
+           /\ Consume /\ UNCHANGED owedA /\ Advance
+TClosed == Ev.ev = "closed" /\ ConsumerSeesClose /\ UNCHANGED owedA /\ Advance
+TCancel == Ev.ev = "cancel" /\ CancelUser /\ UNCHANGED owedA /\ Advance
+TStop   == Ev.ev = "stop" /\ StopService /\ UNCHANGED owedA /\ Advance
+TFeed   == Ev.ev = "feedclose" /\ CloseFeed /\ UNCHANGED owedA /\ Advance
 
 Silent ==
     /\ UNCHANGED i
-    /\ \/ RecvClosed \/ SelUserDone \/ SelSvcDone \/ CheckCtx \/ CheckOk \/ CheckOverflow
-       \/ Send \/ SendUserDone
+    /\ \/ /\ \/ RecvClosed \/ SelUserDone \/ SelSvcDone \/ CheckCtx \/ CheckOk \/ CheckOverflow
+             \/ Send \/ SendUserDone
+          /\ UNCHANGED owedA
+       \/ owedA = "fail" /\ Attempt(FALSE) /\ owedA' = "none"
 
 TraceNext ==
     /\ i <= NT
-    /\ \/ TReset \/ THdr \/ TAtt \/ TRecv \/ TClosed \/ TCancel \/ TStop \/ TFeed \/ Silent
+    /\ \/ TReset \/ THdr \/ TAtt \/ TAttNW \/ TRecv \/ TClosed \/ TCancel \/ TStop \/ TFeed \/ Silent
 
 TraceSpec == TraceInit /\ [][TraceNext]_tvars
 
